@@ -170,7 +170,19 @@ def request(ev):
     out = ev.get("output")
     if stage == "distinct":
         nxt = first_generated(ev["input"], out)
-        line = f"pdistinct\t{cfg}\t{nxt}\t{p}"
+        reads = ev.get("reads")
+        if reads is None or len(reads) != len(ev["input"]):
+            raise Shape("the trace does not record what each transform reads")
+        infos = []
+        for t, r in zip(ev["input"], reads):
+            if r is None:
+                infos.append("n")
+                continue
+            d = "-"
+            if isinstance(t, dict) and isinstance(t.get("Super"), dict) and "Compute" in t["Super"]:
+                d = str(t["Super"]["Compute"]["id"])
+            infos.append(f"s:{cids(r)}:{d}")
+        line = f"pdistinct\t{cfg}\t{nxt}\t{p}\t{';'.join(infos)}"
         if out is None:
             return line, "err"
         n_new = len(pipe_new_ids(ev["input"], out))
@@ -206,7 +218,7 @@ def what_happened(stage, line, exp):
     if exp == "err":
         return "error"
     a = exp.split(" ", 2 if stage == "distinct" else 1)[-1]
-    inp = line.rsplit("\t", 1)[1]
+    inp = line.split("\t")[3 if stage == "distinct" else -1]
     if a == inp:
         return "unchanged"
     toks = [x.split("|")[0] for x in a.split(";")]
